@@ -451,7 +451,7 @@ def run_case(case):
                 res = {"ok": True, "tr": obs, "w": w}
                 if isinstance(bwd, IndexRequest) and isinstance(bwd.request, Update):
                     res["bwd"] = {(k,) + p_: v_ for p_, v_ in gfi.observe_choices(bwd.request.constraint, [q[1:] for q in universe if q and q[0] == k])[0].items()}
-                cur, cur_obs, last_bwd, last_edit = tr, obs, None, None
+                cur, cur_obs, last_bwd, last_edit = tr, obs, bwd, (old_obs, w)      # C06: IndexRequest round trip
                 results.append(res)
             elif kind == "propose":
                 _, seed, args = op
